@@ -179,3 +179,33 @@ func implementsInst(n, iface *types.Named) bool {
 	}
 	return types.Implements(tn, it) || types.Implements(types.NewPointer(tn), it)
 }
+
+// multiDef decomposes `a, b := f()` / `a, b = f()` / `var a, b = f()` nodes.
+func multiDef(x ast.Node) (lhs []ast.Expr, rhs ast.Expr, ok bool) {
+	switch s := x.(type) {
+	case *ast.AssignStmt:
+		if len(s.Rhs) == 1 && len(s.Lhs) >= 1 {
+			return s.Lhs, s.Rhs[0], true
+		}
+	case *ast.ValueSpec:
+		if len(s.Values) == 1 && len(s.Names) >= 1 {
+			for _, n := range s.Names {
+				lhs = append(lhs, n)
+			}
+			return lhs, s.Values[0], true
+		}
+	}
+	return nil, nil, false
+}
+
+// identObj resolves an identifier expression to its object (definition or use).
+func identObj(info *types.Info, e ast.Expr) types.Object {
+	id, ok := ast.Unparen(e).(*ast.Ident)
+	if !ok {
+		return nil
+	}
+	if o := info.Defs[id]; o != nil {
+		return o
+	}
+	return info.Uses[id]
+}
